@@ -1,10 +1,13 @@
 import Enc.Model.Ascii
+import Enc.Model.AsciiAsm
 import Enc.Spec.Ascii
 /-! line-protocol handlers, area `ascii`. Reply = (model observable, spec observable, known classes). -/
 namespace Enc.Driver.Ascii
 open Enc
 
 def reply (m s : Bool) : Option (String × String × String) := some (boolStr m, boolStr s, "")
+
+def pair (x y : Bool) : String := boolStr x ++ "/" ++ boolStr y
 
 def handle (op : String) (args : List String) : Option (String × String × String) :=
   match op, args with
@@ -27,6 +30,29 @@ def handle (op : String) (args : List String) : Option (String × String × Stri
       let n ← n.toInt?; reply (Model.Ascii.validRune n) (Spec.Ascii.validRune n)
   | "ascii.validprintrune", [n] => do
       let n ← n.toInt?; reply (Model.Ascii.validPrintRune n) (Spec.Ascii.validPrintRune n)
+  -- both operands are views of one buffer: s = buf[i:j], t = buf[x:y] (values only: aliasing must not matter)
+  | "ascii.foldalias", [h, i, j, x, y] => do
+      let buf ← fromHex h
+      let i ← i.toNat?; let j ← j.toNat?; let x ← x.toNat?; let y ← y.toNat?
+      let s := (buf.drop i).take (j - i)
+      let t := (buf.drop x).take (y - x)
+      some (boolStr (Model.Ascii.equalFoldString s t) ++ boolStr (Model.Ascii.hasPrefixFold s t) ++
+              boolStr (Model.Ascii.hasSuffixFold s t),
+            boolStr (Spec.Ascii.equalFold s t) ++ boolStr (Spec.Ascii.hasPrefixFold s t) ++
+              boolStr (Spec.Ascii.hasSuffixFold s t), "")
+  -- the ASSEMBLY model (Enc/Model/AsciiAsm.lean): M = `<with AVX2>/<without AVX2>`, S = the byte-wise definition in the same form
+  | "asmascii.valid", [h] => do
+      let s ← fromHex h
+      some (pair (Model.AsciiAsm.asmValidString true s) (Model.AsciiAsm.asmValidString false s),
+            pair (Spec.Ascii.valid s) (Spec.Ascii.valid s), "")
+  | "asmascii.validprint", [h] => do
+      let s ← fromHex h
+      some (pair (Model.AsciiAsm.asmValidPrintString true s) (Model.AsciiAsm.asmValidPrintString false s),
+            pair (Spec.Ascii.validPrint s) (Spec.Ascii.validPrint s), "")
+  | "asmascii.equalfold", [a, b] => do
+      let a ← fromHex a; let b ← fromHex b
+      some (pair (Model.AsciiAsm.asmEqualFoldString true a b) (Model.AsciiAsm.asmEqualFoldString false a b),
+            pair (Spec.Ascii.equalFold a b) (Spec.Ascii.equalFold a b), "")
   | _, _ => none
 
 end Enc.Driver.Ascii
